@@ -34,19 +34,19 @@ chk("C01", "exploration",
     "Generated histories against the real binary; after every successful command the requested closure must equal an "
     "independent from-scratch evaluation and must not be listed by redo-ood. Finds staleness that needs a particular "
     "order of edits / forced rebuilds / checksummed rebuilds / interrupted builds (found D1). Three generator families: "
-    "general, dense in (conditionally) checksummed rules, and tiny projects with a small operation alphabet.", H_NOTE,
+    "general, dense in (conditionally) checksummed rules, and tiny projects with a small operation alphabet. Fourth shape: a directory of generated-only files removed and re-created by the user (builds into the missing directory fail and must be remembered as failed).", H_NOTE,
     "property-based testing: Hypothesis-generated histories, from-scratch content oracle", "DESIGN.md §4 C01", "H")
 chk("C02", "exploration",
     "Generated histories; the multiset of executed scripts of every command must equal the prediction of a reference "
     "model that tracks the dependency versions seen at each target's last build; histories include killed commands "
-    "(recovery run judged on contents/status only) (found D19, D24).", H_NOTE,
+    "(recovery run judged on contents/status only) (found D19, D24). A directed family of chains with >= 2 checksummed levels; the known finding D12 is matched EXACTLY (the model also evaluates the implementation's single-round settle over all settle orders).", H_NOTE,
     "property-based testing: Hypothesis-generated histories vs reference model (execution multiset)", "DESIGN.md §4 C02", "H")
 chk("C03", "exploration",
     "Generated histories over graphs dense in redo-stamp targets with lossy projections; per executed checksummed "
     "target the stop / forward clauses are checked against the model; all 8 classes (changed x depth x in/out-of-band) "
     "must be populated or the run is inconclusive. Rules may stamp conditionally and sources may revert to earlier "
     "bytes. Parallel tier: a checksummed target held by the harness between its redo-stamp call and its exit while "
-    "sibling jobs check or build its dependents (serial/parallel differential).", H_NOTE,
+    "sibling jobs check or build its dependents (serial/parallel differential). Directed nested-chain family (>= 2 checksummed levels, lossy projections per level; found D21's consequence, fixed); D12 matched exactly by the single-round variant of the model.", H_NOTE,
     "property-based testing: Hypothesis-generated histories, stop/forward relation vs reference model + schedule "
     "fuzzing with serial/parallel differential", "DESIGN.md §4 C03, §10.5", "H+S")
 chk("C05", "exploration",
@@ -55,14 +55,14 @@ chk("C05", "exploration",
     "failure, keep-going completeness), never twice per run, redo-ood after failure. Second tier (rv/props/c05s.py): "
     "gated parallel scenarios, optionally with another invocation holding locks: exit status, failing script at most "
     "once per invocation, no new script from a redo process after one of its scripts failed and the system was "
-    "quiescent (unless keep-going), keep-going completeness.", H_NOTE + " " + "Parallel tier: see the S-engine note in C06.",
+    "quiescent (unless keep-going), keep-going completeness.", H_NOTE + " " + "Parallel tier: see the S-engine note in C06. Parallel tier also: a redo-ifchange that is TOLD about a failure (target failed earlier in this run) must not start what it lists after it (directed shared-failing-leaf family).",
     "property-based testing: Hypothesis-generated failure histories vs reference model + schedule fuzzing with trace invariants", "DESIGN.md §4 C05, §10", "H+S")
 chk("C11", "exploration",
     "Generated histories mixing builds with manual create/edit/replace/remove of rule-matched names; bytes, inode and "
     "mtime of every user-owned file are compared after every command; override warning, rebuild after removal and "
     "redo-targets/redo-sources roles are checked against an ownership model. Scripts may replace their own target by "
     "hand while the build runs (the user acting concurrently): that command must fail and leave the file alone "
-    "(found D19, D29; known D28).", H_NOTE,
+    "(found D19, D29; known D28). Second tier: a hand-made file put at the target's name while redo waits for the database write lock (held by the harness as a concurrent writer) at the end of that target's build.", H_NOTE,
     "property-based testing: Hypothesis-generated histories, ownership model + stat/bytes invariants", "DESIGN.md §4 C11", "H")
 chk("C14", "exploration",
     "Generated histories creating/deleting watched paths across runs over graphs dense in ifcreate and always "
@@ -83,7 +83,7 @@ chk("C13", "exploration",
     "In-process proptest of possible_do_files against a reference enumeration (20k quick / 2M thorough paths) plus "
     "generated end-to-end histories checking redo-whichdo, the chosen script, $1/$2/$3/cwd and rebuild after adding / "
     "removing candidates, for a target and a sibling that shares every default*.do candidate. Coverage-guided: "
-    "libFuzzer target `dofiles` (100k quick / 3M thorough executions).", P_NOTE,
+    "libFuzzer target `dofiles` (100k quick / 3M thorough executions). End-to-end cases include a second branch with equally named directories at the same depths, from which the target is requested and redo-whichdo is asked.", P_NOTE,
     "property-based testing: proptest + libFuzzer vs reference enumeration + Hypothesis end-to-end histories", "DESIGN.md §4 C13", "P+H")
 chk("C15", "exploration",
     "normpath is checked on every string over {/,.,a,b} up to length 9 (11 thorough) and {/,.,a} up to 11 (14) against "
@@ -129,7 +129,7 @@ chk("C06", "exploration",
 chk("C07", "exploration",
     "One parallel invocation under a generated schedule vs the model's serial evaluation and a real serial build in a "
     "sibling directory: at most one start per target, same exit status, executed set, bytes, Files flags and Deps "
-    "edges; follow-up build clean.", S_NOTE,
+    "edges; follow-up build clean. A quarter of the scenarios contain failing scripts (once-per-run/overlap and exit status only).", S_NOTE,
     "schedule fuzzing + serial/parallel differential (model and real -j1 build)", "DESIGN.md §4 C07", "S")
 chk("C08", "exploration",
     "Own jobserver (-j1..8) and harness-as-parent-jobserver (K tokens in the pipe, H held back and given/stolen at "
@@ -171,7 +171,7 @@ chk("C12", "exploration",
 chk("C16", "exploration",
     "2-10 commands (builds and queries) started within 0-20 ms on a fresh or pre-built project; exit statuses, SQLite "
     "error strings, integrity_check and presence of every Files/Deps row of every script that ran. Command lines may "
-    "name existing files redo has never seen; produced files may be removed before the race (found D2, D10, D23).",
+    "name existing files redo has never seen; produced files may be removed before the race (found D2, D10, D23). Second tier: a script pipes into redo-stamp through a gated producer; commands started meanwhile get 75 s and must not fail with a busy error.",
     "Trusted: kernel scheduling noise as the source of transaction interleavings (not enumerated); sqlite3 module for "
     "the read-only inspection after all processes are gone.",
     "concurrency fuzzing: generated command mixes started together, error-string + record-presence oracle", "DESIGN.md §4 C16", "S-free")
